@@ -27,13 +27,13 @@ package proto
 // Protobuf record writer constructor and options as callers see them (functional options, not verified against the bodies).
 //@ ghost pwClosed(w Ref) Bool
 //@ func Path
-//@   assumed
+//@   props C01 C02 C11
 //@   modifies nothing
 //@ func WriteBufferSizeBytes
-//@   assumed
+//@   props C01 C02 C11
 //@   modifies nothing
 //@ func CompressionType
-//@   assumed
+//@   props C01 C02 C11
 //@   modifies nothing
 //@ func NewWriter
 //@   assumed
@@ -52,7 +52,7 @@ package proto
 // Sequential protobuf reader as its users see it (flag files of compactions, index loaders).
 //@ ghost prClosed(r Ref) Bool
 //@ func ReaderPath
-//@   assumed
+//@   props C01 C02 C11
 //@   modifies nothing
 //@ func NewReader
 //@   assumed
